@@ -164,6 +164,7 @@ def run(repo, tier):
     )
     r.trusted_base = ["Python ast", "sa/absint.py", "NumPy promotion oracle (rules/C08.py:promote, np_dtype)", "sa/oracles/targets.py"]
     r.assumptions = ["inputs are numpy scalars of the declared dtype (the target casts arguments)", "operands of an operation are typed symbols (sub-expressions compose by induction)"]
+    r.rule("R8.5", "an operation on a symbol and a constant whose like is a bare scalar type (float, int, complex without a width) has the static type NumPy computes for the emitted, strongly typed constant (one obligation per constant type over 12 kind x symbol combinations)", floor=3)
     r.rule("R8.1", "for each kind and operand dtype tuple: static type (Expr.get_type) == dtype computed by the NumPy template", floor=150)
     _MAKE_COMPLEX["func"] = repo.func("utils.py", "make_complex")
     r.rule("R8.2", "every kind with a NumPy template has a static typing rule (get_type does not raise)", floor=40)
@@ -221,6 +222,49 @@ def run(repo, tier):
         r.ob("R8.2", f"{key0} has a typing rule", typed_any or kind in untyped, "", T.where(kind))
     if untyped:
         r.info("R8.2", f"kinds with a NumPy template but no rule in Expr.get_type (printing such a graph raises NotImplementedError; not a wrong type): {sorted(set(untyped))}")
+
+    # ------------------------------------------------------------------ R8.5 constants typed by a bare scalar type
+    # `ctx.constant(v, float)` / `(v, int)` / `(v, "int64")`: the like operand is a type without a width (or an integer type).  The
+    # NumPy target materialises the constant with the type table entry of that type (float -> numpy.float64, integer ->
+    # numpy.int64): a *strongly typed* numpy scalar under NEP 50.  The static type of an operation on a narrower symbol and
+    # such a constant must be what NumPy then computes.
+    n85 = 0
+    def _np_of(tname):
+        v = (T.types or {}).get(tname)
+        return v.split(".")[-1] if isinstance(v, str) else None
+
+    def _promote_strong(d, c):
+        # NEP 50, both numpy scalars: an int64 behaves like float64 against floats
+        cc = "float64" if c.startswith("int") else c
+        return promote(d, cc)
+
+    for tname, at in (("float", AType("float", None)), ("integer", AType("integer", None)), ("complex", AType("complex", None))):
+        cd_ = _np_of(tname)
+        if cd_ is None:
+            raise AnalysisError(f"targets/numpy.py type_to_target has no entry for `{tname}`")
+        bad, tot = [], 0
+        for kind in ("add", "subtract", "multiply", "divide"):
+            if kind not in T.kinds:
+                continue
+            for d in ("float16", "float32", "complex64"):
+                ops = (ctx.symbol(f"s_{d}", to_atype(d)), ctx.symbol(f"c_{tname}", at))
+                e = ctx.make(kind, ops)
+                try:
+                    st = I.call(I.getattr(e, "get_type", ""), [])
+                except (PyRaise, Unsupported) as ex:
+                    raise AnalysisError(f"Expr.get_type({kind}) on a constant of type {tname}: {getattr(ex, 'what', ex)}")
+                sdt = from_atype(st)
+                rt = _promote_strong(d, cd_)
+                tot += 1
+                n85 += 1
+                if sdt != rt:
+                    bad.append(f"{kind}({d}, ·): declared {sdt}, NumPy {rt}")
+        r.ob("R8.5", f"targets/numpy.py constants typed by the bare type `{tname}`" + (f": {len(bad)} of {tot} operations with a narrower symbol are mistyped" if bad else ""), not bad,
+             f"a constant whose like is the bare type `{tname}` is emitted as numpy.{cd_}(v), a strongly typed scalar under NEP 50, while static inference lets the symbol's "
+             f"narrower type win: {'; '.join(bad[:4])}{' ...' if len(bad) > 4 else ''} - the declared type, the debug-level-1 assertion and the result annotation are wrong",
+             loc(T.rel, T.types_node), sample=dict(rule="R8.5", constant_type=tname, emitted=f"numpy.{cd_}", combinations=tot, mistyped=len(bad)))
+    if n85 < 30:
+        raise AnalysisError(f"R8.5 examined only {n85} combinations")
 
     # ------------------------------------------------------------------ R8.3 assertion wiring
     base = repo.func("targets/base.py", "PrinterBase.tostring")
